@@ -183,4 +183,57 @@ theorem foldl_writable (ops : MsgOps M K) (cat : K → K → K) (opts : List (WO
     case moreUpdateMask m =>
       cases h : wr.updateMask <;> simp [applyW, h, WOpt.isAllWritable]
 
+/-! ## the callback / check / interceptor setters (nil included) -/
+
+/-- the five settings a write option can hold a function (or nil) for -/
+inductive FnSetting | check | before | after | created | idcb
+  deriving DecidableEq
+
+/-- which setting an option sets, if any (`WithExpectedCheck(f)` and `WithExpectedCheck(nil)` both set
+the check, …) -/
+def WOpt.setsFn : WOpt M K → Option FnSetting
+  | .expectedCheck _ => some .check | .noExpectedCheck => some .check
+  | .before _ => some .before | .noBefore => some .before
+  | .after _ => some .after | .noAfter => some .after
+  | .createdCallback => some .created | .noCreatedCallback => some .created
+  | .idCallback => some .idcb | .noIDCallback => some .idcb
+  | _ => none
+
+/-- two request records agree on a setting -/
+def sameFn (k : FnSetting) (a b : WriteReq M K) : Prop :=
+  match k with
+  | .check => a.expectedCheck = b.expectedCheck
+  | .before => a.before = b.before
+  | .after => a.after = b.after
+  | .created => a.createdCb = b.createdCb
+  | .idcb => a.idCb = b.idCb
+
+theorem sameFn_refl (k : FnSetting) (a : WriteReq M K) : sameFn k a a := by cases k <;> rfl
+
+theorem sameFn_trans (k : FnSetting) {a b c : WriteReq M K} (h1 : sameFn k a b) (h2 : sameFn k b c) : sameFn k a c := by
+  cases k <;> exact Eq.trans h1 h2
+
+/-- an option that does not set `k` leaves `k` as it was -/
+theorem applyW_keeps_fn (ops : MsgOps M K) (cat : K → K → K) (k : FnSetting) (wr : WriteReq M K) (o : WOpt M K)
+    (h : o.setsFn ≠ some k) : sameFn k (applyW ops cat wr o) wr := by
+  cases k <;> cases o <;> first
+    | exact absurd rfl h
+    | (simp only [applyW, sameFn] <;> first | rfl | (split <;> rfl))
+
+/-- an option that sets `k` decides `k` whatever the record held -/
+theorem applyW_sets_fn (ops : MsgOps M K) (cat : K → K → K) (k : FnSetting) (wr wr' : WriteReq M K) (o : WOpt M K)
+    (h : o.setsFn = some k) : sameFn k (applyW ops cat wr o) (applyW ops cat wr' o) := by
+  cases k <;> cases o <;> simp only [WOpt.setsFn, Option.some.injEq, reduceCtorEq] at h <;>
+    (simp only [applyW, sameFn] <;> rfl)
+
+theorem foldl_keeps_fn (ops : MsgOps M K) (cat : K → K → K) (k : FnSetting) (post : List (WOpt M K))
+    (hpost : ∀ o ∈ post, o.setsFn ≠ some k) :
+    ∀ wr : WriteReq M K, sameFn k (post.foldl (applyW ops cat) wr) wr := by
+  induction post with
+  | nil => intro wr; exact sameFn_refl k wr
+  | cons o post ih =>
+    intro wr
+    simp only [List.foldl_cons]
+    exact sameFn_trans k (ih (fun o' ho' => hpost o' (by simp [ho'])) _) (applyW_keeps_fn ops cat k wr o (hpost o (by simp)))
+
 end ScVerif.C01
